@@ -97,6 +97,8 @@ pub trait Prop: Sync {
     fn extra_runs(&self, _tier: Tier) -> u64 {
         0
     }
+    /// per-process set-up of a worker (resource limits)
+    fn worker_init(&self) {}
     /// whether a crash (signal) of the worker is attributable to the code under test
     fn crash_is_violation(&self) -> bool {
         false
@@ -177,6 +179,7 @@ pub fn run_one(prop: &dyn Prop, env: &Env, index: u64) -> (Value, Outcome) {
 
 /// Worker process: runs indices from, from+step, ... < to; prints JSON lines.
 pub fn worker_main(prop: &dyn Prop, env: &Env, from: u64, to: u64, step: u64, progress: &Path, keep_digests: bool) {
+    prop.worker_init();
     let stdout = std::io::stdout();
     let mut sum = Summary::default();
     let mut distinct: BTreeSet<u64> = BTreeSet::new();
